@@ -2,31 +2,6 @@
    schedule it found (untrusted search); Coq replays the schedule through M. *)
 From C17 Require Import Model Spec.
 
-Definition ev_eqb (a b : ev) : bool :=
-  match a, b with
-  | EvPop c v, EvPop c' v' => Nat.eqb c c' && match v, v' with Some x, Some y => Z.eqb x y | None, None => true | _, _ => false end
-  | EvLoad x z, EvLoad x' z' => Nat.eqb x x' && Z.eqb z z'
-  | _, _ => false
-  end.
-Fixpoint list_eqb {A} (eqb : A -> A -> bool) (a b : list A) : bool :=
-  match a, b with [], [] => true | x :: a', y :: b' => eqb x y && list_eqb eqb a' b' | _, _ => false end.
-
-Definition buffered (ch : chanst) : nat := Nat.min (length (q ch)) (cap ch).
-
-Fixpoint logs_match (rl : list routine) (fin : list bool) (logs : list (list ev)) : bool :=
-  match rl, fin, logs with
-  | [], [], [] => true
-  | r :: rl', f :: fin', l :: logs' =>
-      Bool.eqb (finished r && negb (unw r)) f && (if f then list_eqb ev_eqb (log r) l else true) && logs_match rl' fin' logs'
-  | _, _, _ => false
-  end.
-
-(* the final state of the replay shows exactly what was observed, and is quiescent *)
-Definition matches (s : state) (o : obs) : bool :=
-  if o_crash o then existsb crashed (rs s)
-  else negb (existsb crashed (rs s)) && stuck s && logs_match (rs s) (o_fin o) (o_logs o)
-       && list_eqb Z.eqb (mem s) (o_mem o) && list_eqb Nat.eqb (map buffered (chs s)) (o_lens o).
-
 (* the schedule: Some sch = the search found one (to be replayed); Some [] with a non-matching replay =
    the search proved there is none; None = the search gave up (budget): only the conditions are judged *)
 Definition case := (prog * obs * option (list (nat * nat)))%type.
